@@ -326,6 +326,10 @@ def handle (toks : List String) : String :=
     let acts := toks.filterMap fun t =>
       if t.startsWith "C:" then (parseName (t.drop 2).toString).map fun (w, now) => Astm.Arch.Act.readClock w now
       else if t.startsWith "S:" then ((t.drop 2).toString.toNat?).map Astm.Arch.Act.step
+      else if t.startsWith "X:" then
+        match (t.drop 2).toString.splitOn ":" with
+        | [w, h] => do let wn ← w.toNat?; let b ← ofHex h; pure (Astm.Arch.Act.failWrite wn b)
+        | _ => none
       else none
     let fs0 : Astm.Arch.Name → Option Bytes := fun n => (files.find? (·.1 == n)).map (·.2)
     let W0 : Astm.Arch.World := { fs := fs0, ws := fun w => { msg := (msgs[w]?).getD [] } }
